@@ -136,11 +136,18 @@ func builtinObjectDefineProperties(call FunctionCall) Value {
 	}
 
 	properties := call.runtime.toObject(call.Argument(1))
+	// 15.2.3.7: every descriptor is converted before the first property is
+	// defined, so a malformed one leaves the object untouched.
+	var names []string
+	var descriptors []property
 	properties.enumerate(false, func(name string) bool {
-		descriptor := toPropertyDescriptor(call.runtime, properties.get(name))
-		obj.defineOwnProperty(name, descriptor, true)
+		names = append(names, name)
+		descriptors = append(descriptors, toPropertyDescriptor(call.runtime, properties.get(name)))
 		return true
 	})
+	for index, name := range names {
+		obj.defineOwnProperty(name, descriptors[index], true)
+	}
 
 	return val
 }
